@@ -173,6 +173,27 @@ func (C05) Gen(r *core.Rng, tier string, emit func(string)) {
 			emit(fmt.Sprintf("optcheck %s %d %s C %s", compName(ic), b, fmtEntries(es), cert))
 		}
 	}
+	// tiny budgets on long scattered lists: the first leaf size (4096) gives a root of 8–25 pointers that
+	// does not fit, so the growth loop must run several rounds (a root of one pointer always fits: ≥ 64 bytes)
+	nTiny := 6
+	if tier == "thorough" {
+		nTiny = 60
+	}
+	for i := 0; i < nTiny; i++ {
+		n := 30000 + r.Intn(70000)
+		ic := pmtiles.Compression(pmtiles.Gzip)
+		b := 64 + r.Intn(70)
+		if i%2 == 1 {
+			ic = pmtiles.NoCompression
+			b = 40 + r.Intn(80)
+		}
+		es := tileEntries(r, n, 1)
+		cert, bad := optCertificate(es, b, ic)
+		if bad != "" {
+			cert = "0 0 0 # " + strings.ReplaceAll(bad, " ", "_")
+		}
+		emit(fmt.Sprintf("optcheck %s %d %s C %s", compName(ic), b, fmtEntries(es), cert))
+	}
 	// a few very large lists
 	for _, n := range []int{bigMax, bigMax/2 + 1} {
 		es := tileEntries(r, n, 1)
